@@ -14,7 +14,7 @@ open Afkak.ClientCache Afkak.Monitor.C11
 
 /-- the monitor's view of a model request -/
 def toM (q : Req) : MReq :=
-  { k := q.k, b := q.b, issued := q.issued, due := some q.due, pending := q.pending, grp := q.grp, conn := none }
+  { k := q.k, b := q.b, issued := q.issued, due := some q.due, pending := q.pending, grp := q.grp }
 
 /-- broker clients of the `disconnect` actions waiting on the stack -/
 def stackDisc : List Act → List Nat
@@ -28,16 +28,16 @@ theorem stackDisc_append (a b : List Act) : stackDisc (a ++ b) = stackDisc a ++ 
   | cons x a ih =>
     cases x <;> simp [stackDisc, ih]
 
-def Act.isDisc : Act → Bool
-  | .disconnect _ => true
-  | _ => false
+def Act.notDisc : Act → Bool
+  | .disconnect _ => false
+  | _ => true
 
-theorem stackDisc_nil_of_all {acts : List Act} (h : acts.all (fun a => !a.isDisc) = true) : stackDisc acts = [] := by
+theorem stackDisc_nil_of_all {acts : List Act} (h : acts.all Act.notDisc = true) : stackDisc acts = [] := by
   induction acts with
   | nil => rfl
   | cons x a ih =>
     simp only [List.all_cons, Bool.and_eq_true] at h
-    cases x <;> simp_all [stackDisc, Act.isDisc]
+    cases x <;> simp_all [stackDisc, Act.notDisc]
 
 /-- observations the core rules of the monitor look at -/
 def Ob.rel11 : Ob → Bool
@@ -157,6 +157,17 @@ theorem srtcKeys_getBrokerClient {st st' : St} {n : Int} {b : Nat} {obs : List O
 
 theorem srtcKeys_makeRequest (cfg : Cfg) (st : St) b o e w m : srtcKeys (makeRequest cfg st b o e w m).1 = srtcKeys st := rfl
 
+theorem issueTo_srtcKeys_ok {cfg : Cfg} {st : St} {n : Int} {o : ReqOwner} {e : Bool} {w : ReqWhat} {m : Option Rat} {rj : Bool}
+    {i : IssueOk} (hi : issueTo cfg st n o e w m rj = .ok i) : srtcKeys i.st = srtcKeys st := by
+  obtain ⟨st1, b, obs1, hg, h1, _, _, _⟩ := issueTo_ok hi
+  rw [h1, srtcKeys_makeRequest]; exact srtcKeys_getBrokerClient hg
+
+theorem issueTo_srtcKeys_err {cfg : Cfg} {st : St} {n : Int} {o : ReqOwner} {e : Bool} {w : ReqWhat} {m : Option Rat} {rj : Bool}
+    {er : IssueErr} (he : issueTo cfg st n o e w m rj = .error er) : srtcKeys er.st = srtcKeys st := by
+  rcases issueTo_err he with ⟨h1, _⟩ | ⟨b, hg⟩
+  · rw [h1]
+  · exact srtcKeys_getBrokerClient hg
+
 /-- no action changes which coordinator requests (group, min_timeout) exist -/
 theorem exec_srtcKeys (cfg : Cfg) (st : St) (a : Act) : srtcKeys (exec cfg st a).1 = srtcKeys st := by
   cases a
@@ -169,11 +180,1051 @@ theorem exec_srtcKeys (cfg : Cfg) (st : St) (a : Act) : srtcKeys (exec cfg st a)
     | exact srtcKeys_cloadJoin _ _ _
     | exact srtcKeys_reqDone _ _ _ _
     | (apply srtcKeys_setSrtc; intro y; exact ⟨rfl, rfl⟩)
-    | (rename_i hg; rw [srtcKeys_setUnaware, srtcKeys_makeRequest]; exact srtcKeys_getBrokerClient hg)
-    | (rename_i hg; rw [srtcKeys_setSend, srtcKeys_makeRequest]; exact srtcKeys_getBrokerClient hg)
-    | (rename_i hg; rw [srtcKeys_setSrtc _ _ _ (fun y => ⟨rfl, rfl⟩), srtcKeys_makeRequest]; exact srtcKeys_getBrokerClient hg)
-    | (rename_i hg; exact srtcKeys_getBrokerClient hg)
-    | (simp [srtcKeys, srtcKeys_reqDone]; done)
+    | (rename_i he; exact issueTo_srtcKeys_err he)
+    | (rename_i he; rw [srtcKeys_setUnaware]; exact issueTo_srtcKeys_ok he)
+    | (rename_i he; rw [srtcKeys_setSend]; exact issueTo_srtcKeys_ok he)
+    | (rename_i he; refine Eq.trans (srtcKeys_setSrtc _ _ _ ?_) (issueTo_srtcKeys_ok he); intro y; exact ⟨rfl, rfl⟩)
+    | (simp [srtcKeys]; done)
     | (simp_all [srtcKeys]; done))
+
+/-! ### plain actions: nothing the core rules look at -/
+
+theorem cancelUnaware_obs11 (x : Unaware) : ∀ o ∈ (cancelUnaware x).1, o.rel11 = false := by
+  unfold cancelUnaware; split <;> simp [Ob.rel11]
+
+theorem applyUpdate_obs11 (st : St) (c' : Cache) (cn : List Int) (bs : List Broker) : ∀ o ∈ (applyUpdate st c' cn bs).2.1, o.rel11 = false := by
+  intro o ho
+  simp only [applyUpdate, List.mem_flatMap] at ho
+  obtain ⟨e, _, he⟩ := ho
+  split at he
+  · simp only [List.mem_singleton] at he; subst he; rfl
+  · cases he
+
+@[simp] theorem applyUpdate_reqs (st : St) c' cn bs : (applyUpdate st c' cn bs).1.reqs = st.reqs := rfl
+
+theorem reqDone_now (st : St) (o : ReqOwner) (k : Nat) (r : Res) : (reqDone st o k r).1.now = st.now := by
+  unfold reqDone
+  split
+  · split <;> (try split) <;> rfl
+  · rfl
+  · rfl
+
+theorem reqDone_reqs (st : St) (o : ReqOwner) (k : Nat) (r : Res) : (reqDone st o k r).1.reqs = st.reqs :=
+  congrArg Prod.fst (core_reqDone st o k r)
+
+theorem cloadJoin_reqs (st : St) (w : Waiter) (g : String) : (cloadJoin st w g).1.reqs = st.reqs :=
+  congrArg Prod.fst (core_cloadJoin st w g)
+
+/-- a plain action emits nothing the core rules look at and leaves the request table alone -/
+theorem exec_plain11 (cfg : Cfg) (st : St) (a : Act) (hp : a.plain11 = true) :
+    (∀ o ∈ (exec cfg st a).2.1, o.rel11 = false) ∧ (exec cfg st a).1.reqs = st.reqs := by
+  cases a <;> simp only [Act.plain11] at hp
+  all_goals simp only [exec]
+  all_goals (repeat' split)
+  all_goals (try dsimp only)
+  all_goals (first
+    | (refine ⟨?_, rfl⟩; simp [Ob.rel11]; done)
+    | (rename_i hs; refine ⟨by simp [Ob.rel11], ?_⟩; exact congrArg Prod.fst (core_shuffle hs))
+    | exact ⟨by simp [Ob.rel11], cloadJoin_reqs _ _ _⟩
+    | exact ⟨by simp [Ob.rel11], reqDone_reqs _ _ _ _⟩
+    | exact ⟨cancelUnaware_obs11 _, rfl⟩
+    | exact ⟨applyUpdate_obs11 _ _ _ _, rfl⟩
+    | (refine ⟨?_, ?_⟩ <;> simp_all [Ob.rel11]; done))
+
+/-! ### what actions put on the stack -/
+
+@[simp] theorem reqDone_ok11 (st : St) (o : ReqOwner) (k : Nat) (r : Res) : (reqDone st o k r).2.all Act.ok11 = true := by
+  unfold reqDone
+  split
+  · split
+    · simp [Act.ok11]
+    · split <;> simp [Act.ok11]
+  · simp [Act.ok11]
+  · simp [Act.ok11]
+
+@[simp] theorem deliverLoad_ok11 (lo : LOwner) (r : Res) : (deliverLoad lo r).all Act.ok11 = true := by
+  unfold deliverLoad; split <;> simp [Act.ok11]
+
+@[simp] theorem cloadJoin_ok11 (st : St) (w : Waiter) (g : String) : (cloadJoin st w g).2.all Act.ok11 = true := by
+  unfold cloadJoin; split <;> simp [Act.ok11]
+
+@[simp] theorem applyUpdate_ok11 (st : St) (c' : Cache) (cn : List Int) (bs : List Broker) : (applyUpdate st c' cn bs).2.2.all Act.ok11 = true := by
+  simp only [applyUpdate]
+  split <;> simp [List.all_map, Function.comp_def, Act.ok11]
+
+@[simp] theorem cancelUnaware_ok11 (x : Unaware) : (cancelUnaware x).2.all Act.ok11 = true := by
+  unfold cancelUnaware; split <;> simp [Act.ok11]
+
+@[simp] theorem reqDone_noDisc (st : St) (o : ReqOwner) (k : Nat) (r : Res) : (reqDone st o k r).2.all Act.notDisc = true := by
+  unfold reqDone
+  split
+  · split
+    · simp [Act.notDisc]
+    · split <;> simp [Act.notDisc]
+  · simp [Act.notDisc]
+  · simp [Act.notDisc]
+
+@[simp] theorem deliverLoad_noDisc (lo : LOwner) (r : Res) : (deliverLoad lo r).all Act.notDisc = true := by
+  unfold deliverLoad; split <;> simp [Act.notDisc]
+
+@[simp] theorem cloadJoin_noDisc (st : St) (w : Waiter) (g : String) : (cloadJoin st w g).2.all Act.notDisc = true := by
+  unfold cloadJoin; split <;> simp [Act.notDisc]
+
+@[simp] theorem applyUpdate_noDisc (st : St) (c' : Cache) (cn : List Int) (bs : List Broker) : (applyUpdate st c' cn bs).2.2.all Act.notDisc = true := by
+  simp only [applyUpdate]
+  split <;> simp [List.all_map, Function.comp_def, Act.notDisc]
+
+@[simp] theorem cancelUnaware_noDisc (x : Unaware) : (cancelUnaware x).2.all Act.notDisc = true := by
+  unfold cancelUnaware; split <;> simp [Act.notDisc]
+
+@[simp] theorem reqDone_advSafe (st : St) (o : ReqOwner) (k : Nat) (r : Res) : (reqDone st o k r).2.all Act.advSafe = true := by
+  unfold reqDone
+  split
+  · split
+    · simp [Act.advSafe]
+    · split <;> simp [Act.advSafe]
+  · simp [Act.advSafe]
+  · simp [Act.advSafe]
+
+@[simp] theorem deliverLoad_advSafe (lo : LOwner) (r : Res) : (deliverLoad lo r).all Act.advSafe = true := by
+  unfold deliverLoad; split <;> simp [Act.advSafe]
+
+@[simp] theorem cloadJoin_advSafe (st : St) (w : Waiter) (g : String) : (cloadJoin st w g).2.all Act.advSafe = true := by
+  unfold cloadJoin; split <;> simp [Act.advSafe]
+
+@[simp] theorem applyUpdate_advSafe (st : St) (c' : Cache) (cn : List Int) (bs : List Broker) : (applyUpdate st c' cn bs).2.2.all Act.advSafe = true := by
+  simp only [applyUpdate]
+  split <;> simp [List.all_map, Function.comp_def, Act.advSafe]
+
+
+theorem issueTo_acts11 {cfg : Cfg} {st : St} {n : Int} {o : ReqOwner} {e : Bool} {w : ReqWhat} {m : Option Rat} {rj : Bool}
+    {i : IssueOk} (hi : issueTo cfg st n o e w m rj = .ok i) :
+    i.acts.all (fun a => a.ok11 && a.advSafe && a.notDisc) = true := by
+  obtain ⟨st1, b, obs1, _, _, _, _, h4⟩ := issueTo_ok hi
+  rw [h4]
+  simp only [makeRequest]
+  split <;> simp [Act.ok11, Act.advSafe, Act.notDisc]
+
+/-- no action puts a clock timeout or a top-level completion on the stack, and only the clock's timeout
+    puts a `disconnect` there -/
+theorem exec_ok11 (cfg : Cfg) (st : St) (a : Act) : (exec cfg st a).2.2.all Act.ok11 = true := by
+  cases a
+  all_goals simp only [exec]
+  all_goals (repeat' split)
+  all_goals (try dsimp only)
+  all_goals (first
+    | rfl
+    | (simp [List.all_map, List.all_append, List.all_flatMap, Function.comp_def, Act.ok11]; done)
+    | (rename_i he; have := issueTo_acts11 he; simp only [List.all_eq_true, Bool.and_eq_true] at this ⊢; exact fun x hx => (this x hx).1.1)
+    | (simp_all [List.all_map, List.all_append, Function.comp_def, Act.ok11]; done))
+
+theorem exec_noDisc (cfg : Cfg) (st : St) (a : Act) (h : a.notTimeout = true) :
+    (exec cfg st a).2.2.all Act.notDisc = true := by
+  cases a <;> simp only [Act.notTimeout] at h
+  all_goals simp only [exec]
+  all_goals (repeat' split)
+  all_goals (try dsimp only)
+  all_goals (first
+    | rfl
+    | (simp [List.all_map, List.all_append, List.all_flatMap, Function.comp_def, Act.notDisc]; done)
+    | (rename_i he; have := issueTo_acts11 he; simp only [List.all_eq_true, Bool.and_eq_true] at this ⊢; exact fun x hx => (this x hx).2)
+    | (simp_all [List.all_map, List.all_append, Function.comp_def, Act.notDisc]; done))
+
+/-- what a clock advance runs never cancels a broker request -/
+theorem exec_advSafe (cfg : Cfg) (st : St) (a : Act) (h : a.advSafe = true) : (exec cfg st a).2.2.all Act.advSafe = true := by
+  cases a <;> simp only [Act.advSafe] at h
+  all_goals simp only [exec]
+  all_goals (repeat' split)
+  all_goals (try dsimp only)
+  all_goals (first
+    | rfl
+    | (simp [List.all_map, List.all_append, List.all_flatMap, Function.comp_def, Act.advSafe]; done)
+    | (rename_i he; have := issueTo_acts11 he; simp only [List.all_eq_true, Bool.and_eq_true] at this ⊢; exact fun x hx => (this x hx).1.2)
+    | (simp_all [List.all_map, List.all_append, Function.comp_def, Act.advSafe]; done))
+
+/-! ### the monitor's request table follows the model's -/
+
+@[simp] theorem fail_reqs (m : MSt) (w : String) : (fail m w).reqs = m.reqs := rfl
+@[simp] theorem fail_fails (m : MSt) (w : String) : (fail m w).fails = m.fails ++ [w] := rfl
+@[simp] theorem failX_fails (m : MSt) (w : String) : (failX m w).fails = m.fails := rfl
+@[simp] theorem failX_reqs (m : MSt) (w : String) : (failX m w).reqs = m.reqs := rfl
+
+/-- no observation changes the clock, the calls seen, the event of the step or the late marker -/
+theorem stepOb_frame (cfg : Cfg) (m : MSt) (o : Ob) :
+    (stepOb cfg m o).cur = m.cur ∧ (stepOb cfg m o).now = m.now ∧ (stepOb cfg m o).seen = m.seen ∧
+    (stepOb cfg m o).lateOf = m.lateOf := by
+  cases o
+  all_goals simp only [stepOb]
+  all_goals (repeat' split)
+  all_goals (first
+    | exact ⟨rfl, rfl, rfl, rfl⟩
+    | (simp [fail, failX, setReq, resolve]; done))
+
+theorem foldl_frame (cfg : Cfg) : ∀ (obs : List Ob) (m : MSt),
+    (obs.foldl (stepOb cfg) m).cur = m.cur ∧ (obs.foldl (stepOb cfg) m).now = m.now ∧
+    (obs.foldl (stepOb cfg) m).seen = m.seen ∧ (obs.foldl (stepOb cfg) m).lateOf = m.lateOf
+  | [], m => ⟨rfl, rfl, rfl, rfl⟩
+  | o :: rest, m => by
+    simp only [List.foldl_cons]
+    obtain ⟨a1, a2, a3, a4⟩ := stepOb_frame cfg m o
+    obtain ⟨b1, b2, b3, b4⟩ := foldl_frame cfg rest (stepOb cfg m o)
+    exact ⟨b1.trans a1, b2.trans a2, b3.trans a3, b4.trans a4⟩
+
+theorem getReq_map {m : MSt} {reqs : List Req} (h : m.reqs = reqs.map toM) (k : Nat) :
+    getReq m k = ((reqs.filter (fun r => r.k == k)).head?).map toM := by
+  unfold getReq
+  rw [h, List.filter_map, List.head?_map]
+  rfl
+
+theorem setReq_map {m : MSt} {reqs : List Req} (h : m.reqs = reqs.map toM) (k : Nat) (f : MReq → MReq) (g : Req → Req)
+    (hfg : ∀ q, f (toM q) = toM (g q)) :
+    (Afkak.Monitor.C11.setReq m k f).reqs = (reqs.map (fun r => if r.k == k then g r else r)).map toM := by
+  simp only [Afkak.Monitor.C11.setReq, h, List.map_map]
+  apply List.map_congr_left
+  intro q _
+  simp only [Function.comp]
+  show (if (toM q).k == k then f (toM q) else toM q) = toM (if q.k == k then g q else q)
+  have : (toM q).k = q.k := rfl
+  rw [this]
+  split
+  · exact hfg q
+  · rfl
+
+theorem boundFor_eq (cfg : Cfg) (mt : Option Rat) : boundFor cfg mt = boundOf cfg mt := by
+  cases mt <;> rfl
+
+/-! ### the simulation relation -/
+
+/-- model state + pending action stack  ~  monitor state (core part) -/
+structure Rel (cfg : Cfg) (st : St) (acts : List Act) (m : MSt) : Prop where
+  reqs : m.reqs = st.reqs.map toM
+  now : m.now = st.now
+  owed : m.owedDisc.Perm (stackDisc acts)
+  dot : stackDisc acts ≠ [] → cfg.disconnectOnTimeout = true
+  seen : ∀ x ∈ st.srtcs, (x.g, x.minTimeout) ∈ m.seen
+  fails : m.fails = []
+
+theorem mem_srtcKeys {st : St} {p : String × Option Rat} : p ∈ srtcKeys st ↔ ∃ x ∈ st.srtcs, (x.g, x.minTimeout) = p := by
+  simp [srtcKeys]
+
+/-- observations the core rules ignore, with the request table, clock and coordinator calls untouched -/
+theorem Rel.plain {cfg : Cfg} {st st' : St} {acts acts' : List Act} {m : MSt} {obs : List Ob} (h : Rel cfg st acts m)
+    (hobs : ∀ o ∈ obs, o.rel11 = false) (hr : st'.reqs = st.reqs) (hn : st'.now = st.now)
+    (hs : srtcKeys st' = srtcKeys st) (hd : stackDisc acts' = stackDisc acts) :
+    Rel cfg st' acts' (obs.foldl (stepOb cfg) m) := by
+  have hc := foldl_irrelevant cfg obs m hobs
+  refine ⟨by rw [hc.reqs, hr]; exact h.reqs, by rw [hc.now, hn]; exact h.now, by rw [hc.owed, hd]; exact h.owed,
+    by rw [hd]; exact h.dot, ?_, by rw [hc.fails]; exact h.fails⟩
+  intro x hx
+  have : (x.g, x.minTimeout) ∈ srtcKeys st' := mem_srtcKeys.mpr ⟨x, hx, rfl⟩
+  rw [hs] at this
+  obtain ⟨y, hy, hyx⟩ := mem_srtcKeys.mp this
+  rw [hc.seen, ← hyx]
+  exact h.seen y hy
+
+theorem getReq_append_new (m : MSt) (l : List MReq) (n : MReq) (k : Nat) (hl : ∀ r ∈ l, r.k ≠ k) (hn : n.k = k) :
+    getReq { m with reqs := l ++ [n] } k = some n := by
+  have : l.filter (fun r => r.k == k) = [] := by
+    apply List.filter_eq_nil_iff.mpr
+    intro r hr; simpa using hl r hr
+  simp [getReq, List.filter_append, this, hn]
+
+theorem map_if_append_new (l : List MReq) (n : MReq) (k : Nat) (f : MReq → MReq) (hl : ∀ r ∈ l, r.k ≠ k) (hn : n.k = k) :
+    (l ++ [n]).map (fun r => if r.k == k then f r else r) = l ++ [f n] := by
+  rw [List.map_append]
+  congr 1
+  · conv => rhs; rw [← List.map_id l]
+    apply List.map_congr_left
+    intro r hr
+    have := hl r hr
+    simp [this]
+  · simp [hn]
+
+theorem getReq_of_reqs {m : MSt} {l : List MReq} {n : MReq} {k : Nat} (h : m.reqs = l ++ [n]) (hl : ∀ r ∈ l, r.k ≠ k) (hn : n.k = k) :
+    getReq m k = some n := by
+  have := getReq_append_new m l n k hl hn
+  simpa [getReq, h] using this
+
+theorem setReq_of_reqs {m : MSt} {l : List MReq} {n : MReq} {k : Nat} (f : MReq → MReq) (h : m.reqs = l ++ [n])
+    (hl : ∀ r ∈ l, r.k ≠ k) (hn : n.k = k) : (Afkak.Monitor.C11.setReq m k f).reqs = l ++ [f n] := by
+  simp only [Afkak.Monitor.C11.setReq, h]
+  exact map_if_append_new l n k f hl hn
+
+@[simp] theorem setReq_fails (m : MSt) (k : Nat) (f : MReq → MReq) : (Afkak.Monitor.C11.setReq m k f).fails = m.fails := rfl
+@[simp] theorem setReq_owed (m : MSt) (k : Nat) (f : MReq → MReq) : (Afkak.Monitor.C11.setReq m k f).owedDisc = m.owedDisc := rfl
+@[simp] theorem setReq_seen (m : MSt) (k : Nat) (f : MReq → MReq) : (Afkak.Monitor.C11.setReq m k f).seen = m.seen := rfl
+@[simp] theorem setReq_now (m : MSt) (k : Nat) (f : MReq → MReq) : (Afkak.Monitor.C11.setReq m k f).now = m.now := rfl
+
+theorem makeRequest_eq (cfg : Cfg) (st : St) (b : Nat) (o : ReqOwner) (e : Bool) (w : ReqWhat) (mt : Option Rat) :
+    makeRequest cfg st b o e w mt =
+      (let due := st.now + boundOf cfg mt
+       let k := st.reqs.length
+       let newq : Req := { k := k, b := b, issued := st.now, due := due, pending := !syncFire st b e, grp := grpOf w, owner := o }
+       let newt : Timer := { what := .mrtb k, due := due }
+       ({ st with reqs := st.reqs ++ [newq], timers := if syncFire st b e then st.timers else insertTimer newt st.timers },
+        k,
+        [Ob.mk k b e w] ++ (if syncFire st b e then [Ob.fired k none] else []) ++ [Ob.setTimer (.mrtb k) due] ++
+          (if syncFire st b e then [Ob.cancelTimer (.mrtb k)] else []),
+        if syncFire st b e then [Act.deliver o k (.ok .none)] else [])) := by
+  cases mt <;> rfl
+
+/-- the monitor accepts what `_make_request_to_broker` does, and its table gains the same request -/
+theorem makeRequest_rel (cfg : Cfg) (st : St) (b : Nat) (o : ReqOwner) (e : Bool) (w : ReqWhat) (mt : Option Rat) (m : MSt)
+    (hreqs : m.reqs = st.reqs.map toM) (hnow : m.now = st.now) (hf : m.fails = [])
+    (hk : ∀ q ∈ st.reqs, q.k < st.reqs.length)
+    (hb : match grpOf w with | none => mt = none | some g => (g, mt) ∈ m.seen) :
+    ((makeRequest cfg st b o e w mt).2.2.1.foldl (stepOb cfg) m).reqs = (makeRequest cfg st b o e w mt).1.reqs.map toM ∧
+    ((makeRequest cfg st b o e w mt).2.2.1.foldl (stepOb cfg) m).fails = [] ∧
+    ((makeRequest cfg st b o e w mt).2.2.1.foldl (stepOb cfg) m).owedDisc = m.owedDisc := by
+  have hl : ∀ r ∈ m.reqs, r.k ≠ st.reqs.length := by
+    intro r hr
+    rw [hreqs] at hr
+    obtain ⟨q, hq, rfl⟩ := List.mem_map.mp hr
+    exact Nat.ne_of_lt (hk q hq)
+  -- the bound the timer is armed with is the one the monitor expects
+  have hbound : ∀ (p : Bool) (s : MSt), s.seen = m.seen →
+      boundOk cfg s { k := st.reqs.length, b := b, issued := m.now, pending := p, grp := grpOf w } (st.now + boundOf cfg mt) = true := by
+    intro p s hs
+    unfold boundOk
+    cases hg : grpOf w with
+    | none =>
+      rw [hg] at hb
+      subst hb
+      simp [hnow, boundOf]
+    | some g =>
+      rw [hg] at hb
+      simp only [hs, List.any_eq_true, Bool.and_eq_true, beq_iff_eq]
+      exact ⟨(g, mt), hb, rfl, by rw [boundFor_eq, hnow]⟩
+  rw [makeRequest_eq]
+  dsimp only
+  cases hsync : syncFire st b e
+  · -- an ordinary request: `mk`, `setTimer`
+    simp only [Bool.false_eq_true, if_false, List.append_nil, List.cons_append, List.nil_append, List.foldl_cons, List.foldl_nil, Bool.not_false]
+    generalize hm1 : stepOb cfg m (Ob.mk st.reqs.length b e w) = m1
+    have h1 : m1.reqs = m.reqs ++ [{ k := st.reqs.length, b := b, issued := m.now, grp := grpOf w }] := by rw [← hm1]; rfl
+    have h1f : m1.fails = [] := by rw [← hm1]; exact hf
+    have h1o : m1.owedDisc = m.owedDisc := by rw [← hm1]; rfl
+    have h1s : m1.seen = m.seen := by rw [← hm1]; rfl
+    simp only [stepOb]
+    rw [getReq_of_reqs (m := { m1 with nobs := m1.nobs + 1 }) h1 hl rfl]
+    dsimp only
+    rw [if_pos (hbound true { m1 with nobs := m1.nobs + 1 } h1s)]
+    refine ⟨?_, h1f, h1o⟩
+    rw [setReq_of_reqs _ (m := { m1 with nobs := m1.nobs + 1 }) h1 hl rfl, hreqs, List.map_append]
+    simp [toM, hnow]
+  · -- the Deferred fired inside `makeRequest`: `mk`, `fired`, `setTimer`, `cancelTimer`
+    simp only [if_true, List.cons_append, List.nil_append, List.foldl_cons, List.foldl_nil, Bool.not_true]
+    generalize hm1 : stepOb cfg m (Ob.mk st.reqs.length b e w) = m1
+    have h1 : m1.reqs = m.reqs ++ [{ k := st.reqs.length, b := b, issued := m.now, grp := grpOf w }] := by rw [← hm1]; rfl
+    have h1f : m1.fails = [] := by rw [← hm1]; exact hf
+    have h1o : m1.owedDisc = m.owedDisc := by rw [← hm1]; rfl
+    have h1s : m1.seen = m.seen := by rw [← hm1]; rfl
+    generalize hm2 : stepOb cfg m1 (Ob.fired st.reqs.length none) = m2
+    have h2 : m2.reqs = m.reqs ++ [{ k := st.reqs.length, b := b, issued := m.now, pending := false, grp := grpOf w }] := by
+      rw [← hm2]
+      exact setReq_of_reqs _ (m := { m1 with nobs := m1.nobs + 1 }) h1 hl rfl
+    have h2f : m2.fails = [] := by rw [← hm2]; exact h1f
+    have h2o : m2.owedDisc = m.owedDisc := by rw [← hm2]; exact h1o
+    have h2s : m2.seen = m.seen := by rw [← hm2]; exact h1s
+    generalize hm3 : stepOb cfg m2 (Ob.setTimer (TimerWhat.mrtb st.reqs.length) (st.now + boundOf cfg mt)) = m3
+    have h3 : m3.reqs = m.reqs ++ [{ k := st.reqs.length, b := b, issued := m.now, due := some (st.now + boundOf cfg mt), pending := false, grp := grpOf w }]
+        ∧ m3.fails = [] ∧ m3.owedDisc = m.owedDisc := by
+      rw [← hm3]
+      simp only [stepOb]
+      rw [getReq_of_reqs (m := { m2 with nobs := m2.nobs + 1 }) h2 hl rfl]
+      dsimp only
+      rw [if_pos (hbound false { m2 with nobs := m2.nobs + 1 } h2s)]
+      exact ⟨setReq_of_reqs _ (m := { m2 with nobs := m2.nobs + 1 }) h2 hl rfl, h2f, h2o⟩
+    simp only [stepOb]
+    rw [getReq_of_reqs (m := { m3 with nobs := m3.nobs + 1 }) h3.1 hl rfl]
+    simp only [Bool.false_eq_true, if_false]
+    refine ⟨?_, h3.2.1, h3.2.2⟩
+    show m3.reqs = _
+    rw [h3.1, hreqs, List.map_append]
+    simp [toM, hnow]
+
+theorem getBrokerClient_frame {st st' : St} {n : Int} {b : Nat} {obs : List Ob}
+    (h : getBrokerClient st n = .ok (st', b, obs)) :
+    st'.reqs = st.reqs ∧ st'.now = st.now ∧ (∀ o ∈ obs, o.rel11 = false) := by
+  unfold getBrokerClient at h
+  split at h
+  · cases h
+  · split at h
+    · cases h; exact ⟨rfl, rfl, by simp⟩
+    · split at h
+      · cases h
+      · cases h; exact ⟨rfl, rfl, by simp [Ob.rel11]⟩
+
+theorem issueTo_rel_err {cfg : Cfg} {st : St} {n : Int} {o : ReqOwner} {e : Bool} {w : ReqWhat} {mt : Option Rat} {rj : Bool}
+    {er : IssueErr} (he : issueTo cfg st n o e w mt rj = .error er) :
+    er.st.reqs = st.reqs ∧ er.st.now = st.now ∧ (∀ o ∈ er.obs, o.rel11 = false) := by
+  rcases issueTo_err he with ⟨h1, h2⟩ | ⟨b, hg⟩
+  · rw [h1, h2]; exact ⟨rfl, rfl, by simp⟩
+  · exact getBrokerClient_frame hg
+
+/-- issuing a request: the monitor accepts it and its table gains the same request -/
+theorem issueTo_rel_ok {cfg : Cfg} {st : St} {n : Int} {o : ReqOwner} {e : Bool} {w : ReqWhat} {mt : Option Rat} {rj : Bool}
+    {i : IssueOk} (hi : issueTo cfg st n o e w mt rj = .ok i) {acts : List Act} {m : MSt} (h : Rel cfg st acts m) (hinv : SInv st)
+    (hb : match grpOf w with | none => mt = none | some g => (g, mt) ∈ m.seen) :
+    (i.obs.foldl (stepOb cfg) m).reqs = i.st.reqs.map toM ∧ (i.obs.foldl (stepOb cfg) m).fails = [] ∧
+    (i.obs.foldl (stepOb cfg) m).owedDisc = m.owedDisc ∧ i.st.now = st.now := by
+  obtain ⟨st1, b, obs1, hg, h1, _, h3, _⟩ := issueTo_ok hi
+  obtain ⟨g1, g2, g3⟩ := getBrokerClient_frame hg
+  have hc := foldl_irrelevant cfg obs1 m g3
+  rw [h3, List.foldl_append, h1]
+  have hb' : match grpOf w with | none => mt = none | some g => (g, mt) ∈ (obs1.foldl (stepOb cfg) m).seen := by
+    rw [hc.seen]; exact hb
+  have := makeRequest_rel cfg st1 b o e w mt (obs1.foldl (stepOb cfg) m) (by rw [hc.reqs, g1]; exact h.reqs)
+    (by rw [hc.now, g2]; exact h.now) (by rw [hc.fails]; exact h.fails) (by rw [g1]; exact hinv.kBound) hb'
+  refine ⟨this.1, this.2.1, this.2.2.trans hc.owed, ?_⟩
+  rw [makeRequest_eq]; exact g2
+
+theorem stackDisc_cons {a : Act} (rest : List Act) (h : a.notDisc = true) : stackDisc (a :: rest) = stackDisc rest := by
+  cases a <;> simp_all [stackDisc, Act.notDisc]
+
+theorem head?_filter_mem {α} {p : α → Bool} {l : List α} {x : α} (h : (l.filter p).head? = some x) : x ∈ l :=
+  (List.mem_filter.mp (List.mem_of_mem_head? h)).1
+
+theorem reqGet_setReq {st : St} {k : Nat} {q : Req} (f : Req → Req) (h : reqGet st k = some q) (hf : ∀ x, (f x).k = x.k) :
+    reqGet (setReq st k f) k = some (f q) := by
+  have hq := reqGet_mem h
+  unfold reqGet setReq at *
+  simp only
+  rw [List.filter_map]
+  have : ((fun r : Req => r.k == k) ∘ fun r => if (r.k == k) = true then f r else r) = (fun r : Req => r.k == k) := by
+    funext r
+    simp only [Function.comp]
+    split
+    · rw [hf r]
+    · rfl
+  rw [this, List.head?_map, h]
+  simp [hq.2]
+
+theorem stepOb_bcCancel_nonadv (cfg : Cfg) (m : MSt) (k : Nat) (hna : ∀ dt, m.cur ≠ some (.advance dt)) :
+    stepOb cfg m (.bcCancel k) = { m with nobs := m.nobs + 1 } := by
+  simp only [stepOb]
+  split
+  · rename_i heq _; exact absurd heq (hna _)
+  · rfl
+
+theorem resolved_cancelTimer (cfg : Cfg) (m : MSt) (k : Nat) (r : MReq) (hget : getReq m k = some r) (hp : r.pending = false) :
+    stepOb cfg m (.cancelTimer (.mrtb k)) = { m with nobs := m.nobs + 1 } := by
+  simp only [stepOb]
+  rw [show getReq { m with nobs := m.nobs + 1 } k = getReq m k from rfl, hget]
+  simp [hp]
+
+theorem Rel.step {cfg : Cfg} {st st' : St} {acts acts' : List Act} {m m' : MSt} (h : Rel cfg st acts m)
+    (hreqs : m'.reqs = st'.reqs.map toM) (hnow : st'.now = st.now) (hmnow : m'.now = m.now)
+    (howed : m'.owedDisc = m.owedDisc) (hd : stackDisc acts' = stackDisc acts) (hseen : m'.seen = m.seen)
+    (hs : srtcKeys st' = srtcKeys st) (hf : m'.fails = []) : Rel cfg st' acts' m' := by
+  refine ⟨hreqs, by rw [hmnow, hnow]; exact h.now, by rw [howed, hd]; exact h.owed, by rw [hd]; exact h.dot, ?_, hf⟩
+  intro x hx
+  have : (x.g, x.minTimeout) ∈ srtcKeys st' := mem_srtcKeys.mpr ⟨x, hx, rfl⟩
+  rw [hs] at this
+  obtain ⟨y, hy, hyx⟩ := mem_srtcKeys.mp this
+  rw [hseen, ← hyx]
+  exact h.seen y hy
+
+/-- a nested completion of a pending request: `fired`, then (if its timer is still armed) `cancelTimer` -/
+theorem fired_rel (cfg : Cfg) (st : St) (m : MSt) (k : Nat) (q : Req) (kd : Option Kind) (obs2 : List Ob)
+    (hreqs : m.reqs = st.reqs.map toM) (hq : reqGet st k = some q)
+    (hobs : obs2 = [] ∨ obs2 = [Ob.cancelTimer (.mrtb k)]) :
+    (([Ob.fired k kd] ++ obs2).foldl (stepOb cfg) m).reqs = (setReq st k (fun x => { x with pending := false })).reqs.map toM ∧
+    (([Ob.fired k kd] ++ obs2).foldl (stepOb cfg) m).fails = m.fails ∧
+    (([Ob.fired k kd] ++ obs2).foldl (stepOb cfg) m).owedDisc = m.owedDisc := by
+  have hres : (resolve { m with nobs := m.nobs + 1 } k).reqs =
+      (setReq st k (fun x => { x with pending := false })).reqs.map toM :=
+    setReq_map (m := { m with nobs := m.nobs + 1 }) hreqs k _ _ (fun q => rfl)
+  have hget : getReq (resolve { m with nobs := m.nobs + 1 } k) k = some (toM { q with pending := false }) := by
+    rw [getReq_map hres]
+    have := reqGet_setReq (fun x => { x with pending := false }) hq (fun _ => rfl)
+    unfold reqGet at this
+    rw [this]; rfl
+  rcases hobs with rfl | rfl
+  · exact ⟨hres, rfl, rfl⟩
+  · simp only [List.cons_append, List.nil_append, List.foldl_cons, List.foldl_nil]
+    rw [show stepOb cfg m (.fired k kd) = resolve { m with nobs := m.nobs + 1 } k from rfl,
+      resolved_cancelTimer cfg _ k _ hget rfl]
+    exact ⟨hres, rfl, rfl⟩
+
+/-- every action that can sit on the stack preserves the relation while the monitor consumes its observations -/
+theorem exec_rel (cfg : Cfg) (h0 : 0 ≤ cfg.timeout) (h1 : 0 ≤ cfg.retryDelay) (st : St) (a : Act) (rest : List Act) (m : MSt)
+    (hok : a.ok11 = true) (hinv : SInv st) (h : Rel cfg st (a :: rest) m)
+    (hmode : (∃ dt, m.cur = some (.advance dt)) → a.advSafe = true) :
+    Rel cfg (exec cfg st a).1 ((exec cfg st a).2.2 ++ rest) ((exec cfg st a).2.1.foldl (stepOb cfg) m) := by
+  have hnt : a.notTimeout = true := by cases a <;> simp_all [Act.ok11, Act.notTimeout]
+  have hsd : stackDisc ((exec cfg st a).2.2 ++ rest) = stackDisc rest := by
+    rw [stackDisc_append, stackDisc_nil_of_all (exec_noDisc cfg st a hnt)]; rfl
+  have hnow := (exec_timers cfg h0 h1 st a).1
+  have hsk := exec_srtcKeys cfg st a
+  obtain ⟨fcur, fnow, fseen, flate⟩ := foldl_frame cfg (exec cfg st a).2.1 m
+  clear fcur flate
+  by_cases hp : a.plain11 = true
+  · have hd : a.notDisc = true := by cases a <;> simp_all [Act.plain11, Act.notDisc]
+    obtain ⟨ho, hr⟩ := exec_plain11 cfg st a hp
+    exact h.plain ho hr hnow hsk (by rw [hsd, stackDisc_cons rest hd])
+  · cases a <;> simp only [Act.plain11] at hp
+    case timeoutFired k => simp [Act.ok11] at hok
+    case disconnect b =>
+      have hdot : cfg.disconnectOnTimeout = true := h.dot (by simp [stackDisc])
+      have hmem : b ∈ m.owedDisc := h.owed.mem_iff.mpr (by simp [stackDisc])
+      have hstep : stepOb cfg m (.bcDisconnect b) = { m with nobs := m.nobs + 1, owedDisc := m.owedDisc.erase b } := by
+        simp only [stepOb, hdot, Bool.not_true, Bool.false_eq_true, if_false]
+        rw [if_pos (by simpa using hmem)]
+      simp only [exec, List.foldl_cons, List.foldl_nil, List.nil_append, hstep]
+      refine ⟨h.reqs, h.now, ?_, fun _ => hdot, h.seen, h.fails⟩
+      have := h.owed.erase b
+      simpa [stackDisc] using this
+    case cancelReq k =>
+      have hna : ∀ dt, m.cur ≠ some (.advance dt) := by
+        intro dt hc
+        have := hmode ⟨dt, hc⟩
+        simp [Act.advSafe] at this
+      simp only [exec]
+      split
+      · exact h.plain (st' := st) (by simp [Ob.rel11]) rfl rfl rfl (by simp [stackDisc])
+      · split
+        · simp only [List.foldl_cons, List.foldl_nil, stepOb_bcCancel_nonadv cfg m k hna]
+          exact ⟨h.reqs, h.now, by simpa [stackDisc] using h.owed, by simpa [stackDisc] using h.dot, h.seen, h.fails⟩
+        · exact h.plain (st' := st) (by simp) rfl rfl rfl (by simp [stackDisc])
+    case fireReq k r nested =>
+      have hn : nested = true := by cases nested <;> simp_all [Act.ok11]
+      subst hn
+      have hst : stackDisc (Act.fireReq k r true :: rest) = stackDisc rest := rfl
+      revert hsd hnow hsk fnow fseen
+      simp only [exec]
+      split
+      · intros; exact h.plain (st' := st) (by simp [Ob.rel11]) rfl rfl rfl (by simp [stackDisc])
+      · rename_i q hq
+        split
+        · intros; exact h.plain (st' := st) (by simp) rfl rfl rfl (by simp [stackDisc])
+        · dsimp only
+          split
+          · intro hsd hnow hsk fnow fseen
+            simp only [if_true, ↓reduceIte] at hsd hnow hsk fnow fseen ⊢
+            obtain ⟨f1, f2, f3⟩ := fired_rel cfg st m k q _ [Ob.cancelTimer (.mrtb k)] h.reqs hq (Or.inr rfl)
+            exact h.step (by rw [f1, reqDone_reqs]; rfl) hnow fnow f3 (by rw [hsd]; rfl) fseen hsk (by rw [f2]; exact h.fails)
+          · intro hsd hnow hsk fnow fseen
+            simp only [Bool.false_eq_true, if_false, if_true, ↓reduceIte] at hsd hnow hsk fnow fseen ⊢
+            obtain ⟨f1, f2, f3⟩ := fired_rel cfg st m k q _ [] h.reqs hq (Or.inl rfl)
+            exact h.step (by rw [f1, reqDone_reqs]) hnow fnow f3 (by rw [hsd]; rfl) fseen hsk (by rw [f2]; exact h.fails)
+    case unawareNext u nodes =>
+      revert hsd hnow hsk fnow fseen
+      simp only [exec]
+      split
+      · intros; exact h.plain (st' := st) (by simp [Ob.rel11]) rfl rfl rfl (by simp [stackDisc])
+      · split
+        · split
+          · intros; exact h.plain (st' := st) (by simp [Ob.rel11]) rfl rfl rfl (by simp [stackDisc])
+          · rename_i hs
+            intro hsd hnow hsk _ _
+            exact h.plain (by simp) (congrArg Prod.fst (core_shuffle hs)) hnow hsk (by rw [hsd]; rfl)
+        · split
+          · rename_i he
+            intro hsd hnow hsk _ _
+            obtain ⟨e1, _, e3⟩ := issueTo_rel_err he
+            exact h.plain e3 e1 hnow hsk (by rw [hsd]; rfl)
+          · rename_i x _ _ _ _ _ i he
+            intro hsd hnow hsk fnow fseen
+            have hb : match grpOf (match x.kind with | .metadata ts => ReqWhat.metadata ts | .coord g => ReqWhat.coord g) with
+                | none => (none : Option Rat) = none | some g => (g, none) ∈ m.seen := by
+              cases x.kind <;> simp [grpOf]
+            obtain ⟨i1, i2, i3, _⟩ := issueTo_rel_ok he h hinv hb
+            exact h.step i1 hnow fnow i3 (by rw [hsd]; rfl) fseen hsk i2
+    case issueSlot s j =>
+      revert hsd hnow hsk fnow fseen
+      simp only [exec]
+      split
+      · intros; exact h.plain (st' := st) (by simp [Ob.rel11]) rfl rfl rfl (by simp [stackDisc])
+      · split
+        · split
+          · intros; exact h.plain (st' := st) (by simp [Ob.rel11]) rfl rfl rfl (by simp [stackDisc])
+          · split
+            · rename_i he
+              intro hsd hnow hsk _ _
+              obtain ⟨e1, _, e3⟩ := issueTo_rel_err he
+              exact h.plain e3 e1 hnow hsk (by rw [hsd]; rfl)
+            · rename_i he
+              intro hsd hnow hsk fnow fseen
+              obtain ⟨i1, i2, i3, _⟩ := issueTo_rel_ok he h hinv (by simp [grpOf])
+              exact h.step i1 hnow fnow i3 (by rw [hsd]; rfl) fseen hsk i2
+        · intros; exact h.plain (st' := st) (by simp) rfl rfl rfl (by simp [stackDisc])
+    case srtcGo r =>
+      revert hsd hnow hsk fnow fseen
+      simp only [exec]
+      split
+      · intros; exact h.plain (st' := st) (by simp [Ob.rel11]) rfl rfl rfl (by simp [stackDisc])
+      · rename_i x hx
+        split
+        · intros; exact h.plain (st' := st) (by simp) rfl rfl rfl (by simp [stackDisc])
+        · split
+          · rename_i he
+            intro hsd hnow hsk _ _
+            obtain ⟨e1, _, e3⟩ := issueTo_rel_err he
+            exact h.plain e3 e1 hnow hsk (by rw [hsd]; rfl)
+          · rename_i he
+            intro hsd hnow hsk fnow fseen
+            have hxm : x ∈ st.srtcs := head?_filter_mem hx
+            obtain ⟨i1, i2, i3, _⟩ := issueTo_rel_ok he h hinv (by simpa [grpOf] using h.seen x hxm)
+            exact h.step i1 hnow fnow i3 (by rw [hsd]; rfl) fseen hsk i2
+    all_goals (exact absurd trivial hp)
+
+def IsAdv (m : MSt) : Prop := ∃ dt, m.cur = some (.advance dt)
+
+/-- running the stack to completion: the monitor accepts every observation and ends related to the final state -/
+theorem runActs_rel (cfg : Cfg) (h0 : 0 ≤ cfg.timeout) (h1 : 0 ≤ cfg.retryDelay) :
+    ∀ (fuel : Nat) (st : St) (acts : List Act) (obs0 : List Ob) (m : MSt),
+    SInv st → Rel cfg st acts m → acts.all Act.ok11 = true → (IsAdv m → acts.all Act.advSafe = true) →
+    Ob.badOp "fuel" ∉ (runActs cfg fuel st acts obs0).2 →
+    ∃ new, (runActs cfg fuel st acts obs0).2 = obs0 ++ new ∧
+      Rel cfg (runActs cfg fuel st acts obs0).1 [] (new.foldl (stepOb cfg) m)
+  | 0, st, acts, obs0, m, _, _, _, _, hf => by
+    simp [runActs] at hf
+  | fuel+1, st, [], obs0, m, _, hrel, _, _, _ => by
+    exact ⟨[], by simp [runActs], by simpa [runActs] using hrel⟩
+  | fuel+1, st, a :: rest, obs0, m, hinv, hrel, hok, hadv, hf => by
+    simp only [runActs] at hf ⊢
+    simp only [List.all_cons, Bool.and_eq_true] at hok
+    have hrel1 := exec_rel cfg h0 h1 st a rest m hok.1 hinv hrel (fun ha => by
+      have := hadv ha; simp only [List.all_cons, Bool.and_eq_true] at this; exact this.1)
+    have hinv1 := exec_inv cfg st a (by cases a <;> simp_all [Act.ok11, Act.notTimeout]) hinv
+    obtain ⟨fcur, _, _, _⟩ := foldl_frame cfg (exec cfg st a).2.1 m
+    obtain ⟨new, hnew, hr⟩ := runActs_rel cfg h0 h1 fuel (exec cfg st a).1 ((exec cfg st a).2.2 ++ rest) (obs0 ++ (exec cfg st a).2.1)
+      ((exec cfg st a).2.1.foldl (stepOb cfg) m) hinv1 hrel1
+      (by rw [List.all_append, exec_ok11, hok.2]; rfl)
+      (fun ha => by
+        have ha' : IsAdv m := by obtain ⟨dt, hdt⟩ := ha; exact ⟨dt, by rw [← fcur]; exact hdt⟩
+        have := hadv ha'
+        simp only [List.all_cons, Bool.and_eq_true] at this
+        rw [List.all_append, exec_advSafe cfg st a this.1, this.2]; rfl)
+      hf
+    refine ⟨(exec cfg st a).2.1 ++ new, by rw [hnew, List.append_assoc], ?_⟩
+    rw [List.foldl_append]
+    exact hr
+
+/-! ### between steps -/
+
+def LateOk (m : MSt) : Prop := match m.lateOf with | some _ => m.nobs = 1 | none => True
+
+/-- the end-of-step rules find nothing when no disconnect is owed and a late reply stood alone -/
+theorem endStep_core (m : MSt) (howed : m.owedDisc = []) (hlate : LateOk m) :
+    (endStep m).fails = m.fails ∧ (endStep m).reqs = m.reqs ∧ (endStep m).now = m.now ∧ (endStep m).seen = m.seen ∧
+    (endStep m).owedDisc = [] ∧ (endStep m).lateOf = none := by
+  unfold LateOk at hlate
+  unfold endStep
+  simp only [howed, List.isEmpty_nil, if_true]
+  refine ⟨?_, ?_, ?_, ?_, ?_, ?_⟩
+  all_goals (cases hl : m.lateOf <;> rw [hl] at hlate)
+  all_goals (repeat' split)
+  all_goals (simp_all [fail, failX])
+
+theorem foldl_fixed {α β} (f : β → α → β) (l : List α) (s : β) (h : ∀ a ∈ l, f s a = s) : l.foldl f s = s := by
+  induction l with
+  | nil => rfl
+  | cons a l ih =>
+    simp only [List.foldl_cons]
+    rw [h a (by simp)]
+    exact ih (fun b hb => h b (by simp [hb]))
+
+theorem reqGet_of_mem' {st : St} (hu : ∀ q ∈ st.reqs, ∀ q' ∈ st.reqs, q.k = q'.k → q = q') {q : Req} (hq : q ∈ st.reqs) :
+    reqGet st q.k = some q := by
+  unfold reqGet
+  cases hh : (st.reqs.filter (fun r => r.k == q.k)).head? with
+  | none =>
+    have := List.head?_eq_none_iff.mp hh
+    have hm : q ∈ st.reqs.filter (fun r => r.k == q.k) := List.mem_filter.mpr ⟨hq, by simp⟩
+    rw [this] at hm; cases hm
+  | some q' =>
+    have hm := List.mem_filter.mp (List.mem_of_mem_head? hh)
+    have : q' = q := hu q' hm.1 q hq (by simpa using hm.2)
+    rw [this]
+
+theorem reqGet_of_mem {st : St} (hinv : SInv st) {q : Req} (hq : q ∈ st.reqs) : reqGet st q.k = some q := by
+  unfold reqGet
+  cases hh : (st.reqs.filter (fun r => r.k == q.k)).head? with
+  | none =>
+    have := List.head?_eq_none_iff.mp hh
+    have hm : q ∈ st.reqs.filter (fun r => r.k == q.k) := List.mem_filter.mpr ⟨hq, by simp⟩
+    rw [this] at hm; cases hm
+  | some q' =>
+    have hm := List.mem_filter.mp (List.mem_of_mem_head? hh)
+    have : q' = q := hinv.kUnique q' hm.1 q hq (by simpa using hm.2)
+    rw [this]
+
+/-- the end-of-step timer check finds nothing in a state that satisfies the timer invariant with nothing overdue -/
+theorem timers_ok (cfg : Cfg) (st : St) (m : MSt) (hreqs : m.reqs = st.reqs.map toM) (hnow : m.now = st.now)
+    (hinv : SInv st) (hno : NotOverdue st) :
+    stepItem cfg m (.timers (st.timers.map (fun t => (t.what, t.due)))) = m := by
+  simp only [stepItem]
+  generalize hN : List.filterMap _ (List.map (fun t => (t.what, t.due)) st.timers) = names
+  have hnames : ∀ (k : Nat) (d : Rat), (k, d) ∈ names ↔ ({ what := .mrtb k, due := d } : Timer) ∈ st.timers := by
+    intro k d
+    rw [← hN]
+    simp only [List.mem_filterMap, List.mem_map]
+    constructor
+    · rintro ⟨a, ⟨t, ht, rfl⟩, ha⟩
+      dsimp only at ha
+      split at ha
+      · rename_i k' hk'
+        simp only [Option.some.injEq, Prod.mk.injEq] at ha
+        obtain ⟨rfl, rfl⟩ := ha
+        have : t = { what := .mrtb k', due := t.due } := by cases t; simp_all
+        rw [← this]; exact ht
+      · cases ha
+    · intro ht
+      exact ⟨(.mrtb k, d), ⟨_, ht, rfl⟩, rfl⟩
+  have key : ∀ (f1 : MSt → MReq → MSt) (f2 : MSt → (Nat × Rat) → MSt) (l1 : List MReq) (l2 : List (Nat × Rat)),
+      (∀ r ∈ l1, f1 m r = m) → (∀ n ∈ l2, f2 m n = m) → l2.foldl f2 (l1.foldl f1 m) = m := by
+    intro f1 f2 l1 l2 a b; rw [foldl_fixed f1 l1 m a]; exact foldl_fixed f2 l2 m b
+  apply key
+  · intro r hr
+    obtain ⟨hrm, hrp⟩ := List.mem_filter.mp hr
+    rw [hreqs] at hrm
+    obtain ⟨q, hq, rfl⟩ := List.mem_map.mp hrm
+    have hpt := hinv.pendTimer q hq hrp
+    have hc : names.contains (q.k, q.due) = true := by
+      rw [List.contains_iff_mem]; exact (hnames _ _).mpr hpt
+    have hd : ¬ q.due < m.now := by
+      rw [hnow]; exact Rat.not_lt.mpr (hno _ hpt)
+    simp only [toM]
+    rw [if_neg hd]
+    have hmem : (q.k, q.due) ∈ names := (hnames _ _).mpr hpt
+    simp [hmem]
+  · intro n hn
+    obtain ⟨k, d⟩ := n
+    have ht := (hnames k d).mp hn
+    obtain ⟨q, hq, hqk, hqp, _⟩ := hinv.timerPend _ ht k rfl
+    have hg : getReq m k = some (toM q) := by
+      rw [getReq_map hreqs]
+      have := reqGet_of_mem hinv hq
+      unfold reqGet at this
+      rw [← hqk, this]; rfl
+    simp only [hg, toM, hqp, if_true]
+
+/-! ### one step of the model against the monitor -/
+
+/-- what holds between two steps -/
+structure StepInv (cfg : Cfg) (st : St) (m : MSt) : Prop where
+  rel : Rel cfg st [] m
+  inv : SInv st
+  nover : NotOverdue st
+  late : LateOk m
+
+theorem foldl_obs_items (cfg : Cfg) : ∀ (obs : List Ob) (m : MSt),
+    (obs.map TItem.ob).foldl (stepItem cfg) m = obs.foldl (stepOb cfg) m
+  | [], _ => rfl
+  | o :: rest, m => by
+    simp only [List.map_cons, List.foldl_cons]
+    exact foldl_obs_items cfg rest _
+
+/-- the monitor state after the event item, in terms of the one before -/
+structure EvCore (m m1 : MSt) (e : Ev) : Prop where
+  reqs : m1.reqs = m.reqs
+  now : m1.now = m.now
+  seen : m1.seen = m.seen
+  owed : m1.owedDisc = []
+  fails : m1.fails = m.fails
+  late : m1.lateOf = none
+  cur : m1.cur = some e
+  nobs : m1.nobs = 0
+
+theorem ev_core (cfg : Cfg) (m : MSt) (e : Ev) (howed : m.owedDisc = []) (hlate : LateOk m)
+    (hne : match e with | .advance _ => False | .srtc .. => False | .fire .. => False | _ => True) :
+    EvCore m (stepItem cfg m (.ev e)) e := by
+  obtain ⟨e1, e2, e3, e4, e5, e6⟩ := endStep_core m howed hlate
+  cases e <;> simp only at hne
+  all_goals exact ⟨e2, e3, e4, e5, e1, e6, rfl, rfl⟩
+
+theorem Rel.start {cfg : Cfg} {st st0 : St} {m m1 : MSt} {acts : List Act} (h : Rel cfg st [] m)
+    (hreqs : st0.reqs = st.reqs) (hnow : st0.now = st.now) (hm1r : m1.reqs = m.reqs) (hm1n : m1.now = m.now)
+    (hm1o : m1.owedDisc = []) (hm1f : m1.fails = m.fails)
+    (hseen : ∀ x ∈ st0.srtcs, (x.g, x.minTimeout) ∈ m1.seen) (hnd : acts.all Act.notDisc = true) : Rel cfg st0 acts m1 := by
+  have hsd := stackDisc_nil_of_all hnd
+  refine ⟨by rw [hm1r, hreqs]; exact h.reqs, by rw [hm1n, hnow]; exact h.now, by rw [hm1o, hsd], by rw [hsd]; intro hh; exact absurd rfl hh,
+    hseen, by rw [hm1f]; exact h.fails⟩
+
+theorem run_sound (cfg : Cfg) (h0 : 0 ≤ cfg.timeout) (h1 : 0 ≤ cfg.retryDelay) (st0 : St) (acts : List Act) (m1 : MSt)
+    (hrel : Rel cfg st0 acts m1) (hinv : SInv st0) (hok : acts.all Act.ok11 = true) (hna : ¬ IsAdv m1)
+    (hf : Ob.badOp "fuel" ∉ (runActs cfg fuel st0 acts []).2) :
+    Rel cfg (runActs cfg fuel st0 acts []).1 [] ((runActs cfg fuel st0 acts []).2.foldl (stepOb cfg) m1) := by
+  obtain ⟨new, hnew, hr⟩ := runActs_rel cfg h0 h1 fuel st0 acts [] m1 hinv hrel hok (fun ha => absurd ha hna) hf
+  rw [hnew]; simpa using hr
+
+/-- the cache dump and the timer list that end a step's items change nothing -/
+theorem tail_ok (cfg : Cfg) (st' : St) (m' : MSt) (hrel : Rel cfg st' [] m') (hinv : SInv st') (hno : NotOverdue st') (hl : LateOk m') :
+    StepInv cfg st' (stepItem cfg (stepItem cfg m' (.dump st'.cache)) (.timers (st'.timers.map (fun t => (t.what, t.due))))) := by
+  have hd : stepItem cfg m' (.dump st'.cache) = m' := rfl
+  rw [hd, timers_ok cfg st' m' hrel.reqs hrel.now hinv hno]
+  exact ⟨hrel, hinv, hno, hl⟩
+
+theorem lateOk_of_none {m : MSt} (h : m.lateOf = none) : LateOk m := by
+  unfold LateOk; rw [h]; trivial
+
+theorem not_isAdv_of_cur {m : MSt} {e : Ev} (hc : m.cur = some e) (hne : ∀ dt, e ≠ .advance dt) : ¬ IsAdv m := by
+  rintro ⟨dt, hdt⟩
+  rw [hc] at hdt
+  exact hne dt (Option.some.inj hdt)
+
+/-- events that start with the monitor's table untouched and run a stack of tame actions -/
+theorem classA (cfg : Cfg) (h0 : 0 ≤ cfg.timeout) (h1 : 0 ≤ cfg.retryDelay) {st : St} {m m1 : MSt} (hI : StepInv cfg st m)
+    (hm1r : m1.reqs = m.reqs) (hm1n : m1.now = m.now) (hm1o : m1.owedDisc = []) (hm1f : m1.fails = m.fails)
+    (hm1l : m1.lateOf = none) (hna : ¬ IsAdv m1)
+    (st0 : St) (acts : List Act) (obs0 : List Ob)
+    (hreqs : st0.reqs = st.reqs) (htim : st0.timers = st.timers) (hnow : st0.now = st.now)
+    (hseen : ∀ x ∈ st0.srtcs, (x.g, x.minTimeout) ∈ m1.seen)
+    (hok : acts.all Act.ok11 = true) (hnd : acts.all Act.notDisc = true) (hobs0 : ∀ o ∈ obs0, o.rel11 = false)
+    (hf : Ob.badOp "fuel" ∉ (runActs cfg fuel st0 acts obs0).2) :
+    Rel cfg (runActs cfg fuel st0 acts obs0).1 [] ((runActs cfg fuel st0 acts obs0).2.foldl (stepOb cfg) m1) ∧
+    LateOk ((runActs cfg fuel st0 acts obs0).2.foldl (stepOb cfg) m1) := by
+  have hinv0 : SInv st0 := by unfold SInv; rw [hreqs, htim]; exact hI.inv
+  have hrel0 : Rel cfg st0 acts m1 := hI.rel.start hreqs hnow hm1r hm1n hm1o hm1f hseen hnd
+  have hc := foldl_irrelevant cfg obs0 m1 hobs0
+  obtain ⟨c1, _, _, c4⟩ := foldl_frame cfg obs0 m1
+  have hrel0' : Rel cfg st0 acts (obs0.foldl (stepOb cfg) m1) :=
+    hrel0.plain hobs0 rfl rfl rfl rfl
+  have hna' : ¬ IsAdv (obs0.foldl (stepOb cfg) m1) := by
+    rintro ⟨dt, hdt⟩; exact hna ⟨dt, by rw [← c1]; exact hdt⟩
+  obtain ⟨new, hnew, hr⟩ := runActs_rel cfg h0 h1 fuel st0 acts obs0 _ hinv0 hrel0' hok (fun ha => absurd ha hna') hf
+  rw [hnew, List.foldl_append]
+  refine ⟨hr, lateOk_of_none ?_⟩
+  rw [(foldl_frame cfg new _).2.2.2, c4, hm1l]
+
+theorem cancelOp_facts (st : St) (o : Nat) :
+    (cancelOp st o).1.reqs = st.reqs ∧ (cancelOp st o).1.timers = st.timers ∧ (cancelOp st o).1.now = st.now ∧
+    srtcKeys (cancelOp st o).1 = srtcKeys st ∧ (∀ ob ∈ (cancelOp st o).2.1, ob.rel11 = false) ∧
+    (cancelOp st o).2.2.all Act.ok11 = true ∧ (cancelOp st o).2.2.all Act.notDisc = true := by
+  unfold cancelOp
+  repeat' split
+  all_goals (try dsimp only)
+  all_goals (refine ⟨?_, ?_, ?_, ?_, ?_, ?_, ?_⟩)
+  all_goals (first
+    | rfl
+    | exact cancelUnaware_obs11 _
+    | exact cancelUnaware_ok11 _
+    | exact cancelUnaware_noDisc _
+    | (simp [List.all_flatMap, Act.ok11, Act.notDisc, Ob.rel11]; done)
+    | (simp_all [List.all_flatMap, Act.ok11, Act.notDisc, Ob.rel11]; done)
+    | (rw [List.all_flatMap]; apply List.all_eq_true.mpr; intro sl _; split <;> simp [Act.ok11, Act.notDisc]))
+
+theorem runActs_prefix (cfg : Cfg) : ∀ (fuel : Nat) (st : St) (acts : List Act) (obs : List Ob),
+    ∃ more, (runActs cfg fuel st acts obs).2 = obs ++ more
+  | 0, st, acts, obs => ⟨[.badOp "fuel"], rfl⟩
+  | fuel+1, st, [], obs => ⟨[], by simp [runActs]⟩
+  | fuel+1, st, a :: rest, obs => by
+    simp only [runActs]
+    obtain ⟨more, hm⟩ := runActs_prefix cfg fuel (exec cfg st a).1 ((exec cfg st a).2.2 ++ rest) (obs ++ (exec cfg st a).2.1)
+    exact ⟨(exec cfg st a).2.1 ++ more, by rw [hm, List.append_assoc]⟩
+
+theorem fireDue_prefix (cfg : Cfg) : ∀ (n : Nat) (st : St) (obs : List Ob), ∃ more, (fireDue cfg n st obs).2 = obs ++ more
+  | 0, st, obs => ⟨[.badOp "fuel"], rfl⟩
+  | n+1, st, obs => by
+    simp only [fireDue]
+    split
+    · exact ⟨[], by simp⟩
+    · split
+      · exact ⟨[], by simp⟩
+      · rename_i t rest _ _
+        obtain ⟨m1, h1⟩ := runActs_prefix cfg fuel { st with timers := rest } [timerAct t.what] obs
+        obtain ⟨m2, h2⟩ := fireDue_prefix cfg n (runActs cfg fuel { st with timers := rest } [timerAct t.what] obs).1
+          (runActs cfg fuel { st with timers := rest } [timerAct t.what] obs).2
+        exact ⟨m1 ++ m2, by rw [h2, h1, List.append_assoc]⟩
+
+theorem stepOb_bcCancel_adv (cfg : Cfg) (m : MSt) (k : Nat) (dt : Rat) (r : MReq) (due : Rat)
+    (hc : m.cur = some (.advance dt)) (hg : getReq m k = some r) (hd : r.due = some due) (hle : due ≤ m.now) :
+    (stepOb cfg m (.bcCancel k)).owedDisc = m.owedDisc ++ (if cfg.disconnectOnTimeout then [r.b] else []) ∧
+    (stepOb cfg m (.bcCancel k)).reqs = m.reqs ∧ (stepOb cfg m (.bcCancel k)).fails = m.fails := by
+  simp only [stepOb]
+  rw [show getReq { m with nobs := m.nobs + 1 } k = getReq m k from rfl, hg]
+  simp only [hc, hd]
+  cases hdot : cfg.disconnectOnTimeout
+  · simp
+  · simp [hle]
+
+/-- the clock fires the timer of request `k` (just popped): `bcCancel`, `fired`, and the disconnect is owed -/
+theorem timeoutFired_rel (cfg : Cfg) (st : St) (k : Nat) (m : MSt) (hx : NInvX k st.reqs st.timers)
+    (hrel : Rel cfg st [] m) (hadv : IsAdv m) (hdue : ∀ q ∈ st.reqs, q.k = k → q.pending = true → q.due ≤ st.now) :
+    Rel cfg (exec cfg st (.timeoutFired k)).1 (exec cfg st (.timeoutFired k)).2.2
+      ((exec cfg st (.timeoutFired k)).2.1.foldl (stepOb cfg) m) ∧
+    (exec cfg st (.timeoutFired k)).2.2.all Act.ok11 = true ∧ (exec cfg st (.timeoutFired k)).2.2.all Act.advSafe = true := by
+  obtain ⟨q, hq, hqk, hqp⟩ := hx.isPending
+  have hget : reqGet st k = some q := by rw [← hqk]; exact reqGet_of_mem' hx.kUnique hq
+  obtain ⟨dt, hdt⟩ := hadv
+  have hle : q.due ≤ m.now := by rw [hrel.now]; exact hdue q hq hqk hqp
+  have hgm : getReq m k = some (toM q) := by
+    rw [getReq_map hrel.reqs]
+    unfold reqGet at hget
+    rw [hget]; rfl
+  obtain ⟨b1, b2, b3⟩ := stepOb_bcCancel_adv cfg m k dt (toM q) q.due hdt hgm rfl hle
+  have howed0 : m.owedDisc = [] := List.Perm.eq_nil (by simpa [stackDisc] using hrel.owed)
+  simp only [exec, hget, hqp, Bool.not_true, Bool.false_eq_true, if_false, List.foldl_cons, List.foldl_nil]
+  generalize hm1 : stepOb cfg m (Ob.bcCancel k) = m1 at b1 b2 b3
+  have hres : (resolve { m1 with nobs := m1.nobs + 1 } k).reqs =
+      (setReq st k (fun x => { x with timedOut := true, pending := false })).reqs.map toM :=
+    setReq_map (m := { m1 with nobs := m1.nobs + 1 }) (by show m1.reqs = _; rw [b2]; exact hrel.reqs) k _ _ (fun q => rfl)
+  have hf1 : (stepOb cfg m1 (.fired k (some .cancelled))).now = m.now ∧ (stepOb cfg m1 (.fired k (some .cancelled))).seen = m.seen := by
+    have a := stepOb_frame cfg m1 (.fired k (some .cancelled))
+    have b := stepOb_frame cfg m (.bcCancel k)
+    rw [hm1] at b
+    exact ⟨a.2.1.trans b.2.1, a.2.2.1.trans b.2.2.1⟩
+  refine ⟨?_, ?_, ?_⟩
+  · refine ⟨?_, ?_, ?_, ?_, ?_, ?_⟩
+    · show (resolve { m1 with nobs := m1.nobs + 1 } k).reqs = _
+      rw [hres, reqDone_reqs]
+    · rw [hf1.1, hrel.now, reqDone_now]; rfl
+    · show m1.owedDisc.Perm _
+      rw [b1, howed0, stackDisc_append, stackDisc_nil_of_all (reqDone_noDisc _ _ _ _)]
+      cases cfg.disconnectOnTimeout <;> simp [stackDisc, toM]
+    · intro hne
+      rw [stackDisc_append, stackDisc_nil_of_all (reqDone_noDisc _ _ _ _)] at hne
+      cases hdot : cfg.disconnectOnTimeout
+      · simp [hdot, stackDisc] at hne
+      · rfl
+    · intro x hx
+      rw [hf1.2]
+      have : (x.g, x.minTimeout) ∈ srtcKeys st := by
+        have h1 := srtcKeys_reqDone (setReq st k (fun x => { x with timedOut := true, pending := false })) q.owner k (.err .timedOut)
+        rw [srtcKeys_setReq] at h1
+        rw [← h1]; exact mem_srtcKeys.mpr ⟨x, hx, rfl⟩
+      obtain ⟨y, hy, hyx⟩ := mem_srtcKeys.mp this
+      rw [← hyx]; exact hrel.seen y hy
+    · show m1.fails = []
+      rw [b3]; exact hrel.fails
+  · rw [List.all_append, reqDone_ok11]; cases cfg.disconnectOnTimeout <;> simp [Act.ok11]
+  · rw [List.all_append, reqDone_advSafe]; cases cfg.disconnectOnTimeout <;> simp [Act.advSafe]
+
+/-- one due timer: its action runs to completion -/
+theorem timerRun_rel (cfg : Cfg) (h0 : 0 ≤ cfg.timeout) (h1 : 0 ≤ cfg.retryDelay) (st : St) (t : Timer) (rest : List Timer)
+    (obs0 : List Ob) (m : MSt) (ht : st.timers = t :: rest) (hdue : ¬ st.now < t.due)
+    (hinv : SInv st) (hrel : Rel cfg st [] m) (hadv : IsAdv m)
+    (hf : Ob.badOp "fuel" ∉ (runActs cfg fuel { st with timers := rest } [timerAct t.what] obs0).2) :
+    SInv (runActs cfg fuel { st with timers := rest } [timerAct t.what] obs0).1 ∧
+    ∃ new, (runActs cfg fuel { st with timers := rest } [timerAct t.what] obs0).2 = obs0 ++ new ∧
+      Rel cfg (runActs cfg fuel { st with timers := rest } [timerAct t.what] obs0).1 [] (new.foldl (stepOb cfg) m) := by
+  have hpop := NInv.pop (show NInv st.reqs (t :: rest) by rw [← ht]; exact hinv)
+  have hrel1 : ∀ a : Act, a.notDisc = true → Rel cfg ({ st with timers := rest } : St) [a] m := fun a ha =>
+    hrel.plain (obs := []) (by simp) rfl rfl rfl (by rw [stackDisc_cons [] ha])
+  cases hw : t.what with
+  | mrtb k =>
+    have hx : NInvX k ({ st with timers := rest } : St).reqs ({ st with timers := rest } : St).timers := hpop.1 k hw
+    have hdue' : ∀ q ∈ ({ st with timers := rest } : St).reqs, q.k = k → q.pending = true → q.due ≤ ({ st with timers := rest } : St).now := by
+      intro q hq hqk _
+      obtain ⟨q', hq', hqk', _, hqd⟩ := hinv.timerPend t (by rw [ht]; simp) k hw
+      have : q = q' := hinv.kUnique q hq q' hq' (by rw [hqk, hqk'])
+      rw [this, hqd]
+      exact Rat.not_lt.mp hdue
+    have hrel0 : Rel cfg ({ st with timers := rest } : St) [] m := hrel.plain (obs := []) (by simp) rfl rfl rfl rfl
+    obtain ⟨r1, r2, r3⟩ := timeoutFired_rel cfg _ k m hx hrel0 hadv hdue'
+    have hinv' := exec_timeoutFired cfg _ k hx
+    have hfu : fuel = 99999 + 1 := rfl
+    simp only [hw, timerAct] at hf ⊢
+    rw [hfu] at hf ⊢
+    simp only [runActs, List.append_nil] at hf ⊢
+    obtain ⟨fcur, _, _, _⟩ := foldl_frame cfg (exec cfg ({ st with timers := rest } : St) (.timeoutFired k)).2.1 m
+    obtain ⟨new, hnew, hr⟩ := runActs_rel cfg h0 h1 99999 _ _ (obs0 ++ (exec cfg ({ st with timers := rest } : St) (.timeoutFired k)).2.1)
+      _ hinv' r1 r2 (fun _ => r3) hf
+    refine ⟨runActs_inv cfg _ _ _ _ hinv' (exec_acts cfg _ _), (exec cfg ({ st with timers := rest } : St) (.timeoutFired k)).2.1 ++ new, ?_, ?_⟩
+    · rw [hnew, List.append_assoc]
+    · rw [List.foldl_append]; exact hr
+  | boot j =>
+    have hx : SInv ({ st with timers := rest } : St) := hpop.2 (fun k hh => by rw [hw] at hh; cases hh)
+    simp only [hw, timerAct] at hf ⊢
+    refine ⟨runActs_inv cfg _ _ _ _ hx (by simp [Act.notTimeout]), ?_⟩
+    exact runActs_rel cfg h0 h1 fuel _ _ obs0 m hx (hrel1 _ rfl) (by simp [Act.ok11]) (fun _ => by simp [Act.advSafe]) hf
+  | retry l =>
+    have hx : SInv ({ st with timers := rest } : St) := hpop.2 (fun k hh => by rw [hw] at hh; cases hh)
+    simp only [hw, timerAct] at hf ⊢
+    refine ⟨runActs_inv cfg _ _ _ _ hx (by simp [Act.notTimeout]), ?_⟩
+    exact runActs_rel cfg h0 h1 fuel _ _ obs0 m hx (hrel1 _ rfl) (by simp [Act.ok11]) (fun _ => by simp [Act.advSafe]) hf
+
+theorem fireDue_nil (cfg : Cfg) (n : Nat) (st : St) (obs : List Ob) (ht : st.timers = []) :
+    fireDue cfg (n+1) st obs = (st, obs) := by
+  unfold fireDue
+  split
+  · rfl
+  · rename_i t' rest' h; rw [ht] at h; cases h
+
+theorem fireDue_cons (cfg : Cfg) (n : Nat) (st : St) (obs : List Ob) (t : Timer) (rest : List Timer) (ht : st.timers = t :: rest) :
+    fireDue cfg (n+1) st obs =
+      if st.now < t.due then (st, obs) else
+      fireDue cfg n (runActs cfg fuel { st with timers := rest } [timerAct t.what] obs).1
+        (runActs cfg fuel { st with timers := rest } [timerAct t.what] obs).2 := by
+  conv => lhs; unfold fireDue
+  split
+  · rename_i h; rw [ht] at h; cases h
+  · rename_i t' rest' h
+    rw [ht] at h
+    cases h
+    rfl
+
+/-- a clock advance: every due timer in turn -/
+theorem fireDue_rel (cfg : Cfg) (h0 : 0 ≤ cfg.timeout) (h1 : 0 ≤ cfg.retryDelay) :
+    ∀ (n : Nat) (st : St) (obs0 : List Ob) (m : MSt), SInv st → Rel cfg st [] m → IsAdv m →
+    Ob.badOp "fuel" ∉ (fireDue cfg n st obs0).2 →
+    ∃ new, (fireDue cfg n st obs0).2 = obs0 ++ new ∧ Rel cfg (fireDue cfg n st obs0).1 [] (new.foldl (stepOb cfg) m)
+  | 0, st, obs0, m, _, _, _, hf => by simp [fireDue] at hf
+  | n+1, st, obs0, m, hinv, hrel, hadv, hf => by
+    cases ht : st.timers with
+    | nil =>
+      rw [fireDue_nil cfg n st obs0 ht]
+      exact ⟨[], by simp, hrel⟩
+    | cons t rest =>
+      rw [fireDue_cons cfg n st obs0 t rest ht] at hf ⊢
+      by_cases hlt : st.now < t.due
+      · rw [if_pos hlt]
+        exact ⟨[], by simp, hrel⟩
+      · rw [if_neg hlt] at hf ⊢
+        obtain ⟨more, hmore⟩ := fireDue_prefix cfg n (runActs cfg fuel { st with timers := rest } [timerAct t.what] obs0).1
+          (runActs cfg fuel { st with timers := rest } [timerAct t.what] obs0).2
+        have hf1 : Ob.badOp "fuel" ∉ (runActs cfg fuel { st with timers := rest } [timerAct t.what] obs0).2 := by
+          intro hh; apply hf; rw [hmore]; exact List.mem_append_left _ hh
+        obtain ⟨hinv2, new1, hnew1, hr1⟩ := timerRun_rel cfg h0 h1 st t rest obs0 m ht hlt hinv hrel hadv hf1
+        have hadv2 : IsAdv (new1.foldl (stepOb cfg) m) := by
+          obtain ⟨dt, hdt⟩ := hadv
+          exact ⟨dt, by rw [(foldl_frame cfg new1 m).1]; exact hdt⟩
+        obtain ⟨new2, hnew2, hr2⟩ := fireDue_rel cfg h0 h1 n _ _ (new1.foldl (stepOb cfg) m) hinv2 hr1 hadv2 hf
+        refine ⟨new1 ++ new2, by rw [hnew2, hnew1, List.append_assoc], ?_⟩
+        rw [List.foldl_append]; exact hr2
+
+theorem cloadJoin_frame (st : St) (w : Waiter) (g : String) :
+    (cloadJoin st w g).1.reqs = st.reqs ∧ (cloadJoin st w g).1.timers = st.timers ∧ (cloadJoin st w g).1.now = st.now ∧
+    (cloadJoin st w g).1.srtcs = st.srtcs := by
+  unfold cloadJoin; split <;> exact ⟨rfl, rfl, rfl, rfl⟩
+
+/-- the event item for a completion from the network -/
+theorem ev_fire (cfg : Cfg) (m : MSt) (st : St) (k : Nat) (r : Res) (hrel : Rel cfg st [] m) (hlate : LateOk m) :
+    (stepItem cfg m (.ev (.fire k r))).now = m.now ∧ (stepItem cfg m (.ev (.fire k r))).seen = m.seen ∧
+    (stepItem cfg m (.ev (.fire k r))).owedDisc = [] ∧ (stepItem cfg m (.ev (.fire k r))).fails = [] ∧
+    (stepItem cfg m (.ev (.fire k r))).cur = some (.fire k r) ∧
+    (match reqGet st k with
+     | none => (stepItem cfg m (.ev (.fire k r))).reqs = m.reqs ∧ (stepItem cfg m (.ev (.fire k r))).lateOf = none
+     | some q =>
+       if q.pending then
+         (stepItem cfg m (.ev (.fire k r))).reqs = (setReq st k (fun x => { x with pending := false })).reqs.map toM ∧
+         (stepItem cfg m (.ev (.fire k r))).lateOf = none
+       else (stepItem cfg m (.ev (.fire k r))).reqs = m.reqs ∧ (stepItem cfg m (.ev (.fire k r))).lateOf = some k ∧
+         (stepItem cfg m (.ev (.fire k r))).nobs = 0) := by
+  have howed : m.owedDisc = [] := List.Perm.eq_nil (by simpa [stackDisc] using hrel.owed)
+  obtain ⟨e1, e2, e3, e4, e5, e6⟩ := endStep_core m howed hlate
+  have hsr : ({ endStep m with cur := some (.fire k r), nobs := 0 } : MSt).reqs = st.reqs.map toM := by
+    show (endStep m).reqs = _; rw [e2]; exact hrel.reqs
+  have hg := getReq_map hsr k
+  simp only [stepItem]
+  rw [hg]
+  cases hq : reqGet st k with
+  | none =>
+    unfold reqGet at hq
+    rw [hq]
+    exact ⟨e3, e4, e5, by rw [← hrel.fails]; exact e1, rfl, e2, e6⟩
+  | some q =>
+    have hq' := hq
+    unfold reqGet at hq'
+    rw [hq']
+    simp only [Option.map_some, toM]
+    cases hp : q.pending
+    · simp only [Bool.false_eq_true, if_false]
+      exact ⟨e3, e4, e5, by rw [← hrel.fails]; exact e1, trivial, e2, trivial, trivial⟩
+    · simp only [if_true]
+      refine ⟨e3, e4, e5, by rw [← hrel.fails]; exact e1, rfl, ?_, e6⟩
+      exact setReq_map hsr k _ _ (fun q => rfl)
 
 end Afkak.ClientNet
